@@ -24,15 +24,17 @@ func ValueTexts(tier string) []string {
 		`["a", true, f]`, `[1, 2, 3]`, `{ foo = "x", "${decl.foo}" = 1 }`, `{ foo = "x", (decl.foo) = true }`, `{ foo = "x", 42 = 1 }`, `provider::aws::x€ `, `provider::aw» y`,
 		`fn2(1, )`, `fn(fn2(1, ), "b")`, `[decl.foo, decl.bar, decl.foo]`,
 		"{\n  \u00e9\n}", "{\n  \u00e9t\u00e9 = \"x\"\n  \u00e9c\n}", "{ \u00e9", "{\n  \"\u00e9\n}", `provider::é`, `provider::é::x`, `provider::aws::ét("a")`, `decl.foo.0`, `decl.foo.10.x`, `list()`, `map()`, `object()`,
-`provider::éa`, `provider::éa::x("a")`, `vf(1, decl.foo.id, decl.foo.id)`, `{ ("k") = 1, null = 2, true = 3 }`, `true ? [decl.foo.bar, "x"] : []`, `true ? { k = decl.foo.bar } : {}`, "decl.foo[\n\"k\"\n]", "(decl.\nfoo)", "decl.foo[\n  0\n].x", `1 < decl.foo.id`, `decl.foo.id >= 2`, `decl.foo.bar == "x"`, `decl. foo`, `decl .foo.bar`, `ns ::fn(1)`, `provider::  aws::xy("a")`, `provider :: aws::x`, `[fn2(1, ]`, `sh1("a", "b")`, `sh3("a", "b", )`, `sh1("a", sh3("x", "y", "z"))`, `{ foo = decl.foo.bar, bar = true }`, `{ k = decl.foo.bar }`, `[decl.foo.bar]`,
+		`provider::éa`, `provider::éa::x("a")`, `vf(1, decl.foo.id, decl.foo.id)`, `{ ("k") = 1, null = 2, true = 3 }`, `true ? [decl.foo.bar, "x"] : []`, `true ? { k = decl.foo.bar } : {}`, "decl.foo[\n\"k\"\n]", "(decl.\nfoo)", "decl.foo[\n  0\n].x", `1 < decl.foo.id`, `decl.foo.id >= 2`, `decl.foo.bar == "x"`, `decl. foo`, `decl .foo.bar`, `ns ::fn(1)`, `provider::  aws::xy("a")`, `provider :: aws::x`, `[fn2(1, ]`, `sh1("a", "b")`, `sh3("a", "b", )`, `sh1("a", sh3("x", "y", "z"))`, `{ foo = decl.foo.bar, bar = true }`, `{ k = decl.foo.bar }`, `[decl.foo.bar]`,
 		"{\r\n}\r", "{\r\n  foo = \"x\"\r\n}\r", "[\r\n  \"a\",\r\n]\r", "fn(\r\n  \"a\"\r\n)\r", `[null, "b"]`,
-		`string`, `list(string)`, `object({a=string})`, `tuple([string, bool])`, `map(any)`, `object({a=optional(string)})`, `list(`, `object({`, `any`,
+		`string`, `list(string)`, `object({a=string})`, `tuple([string, bool])`, `map(any)`, `object({a=optional(string)})`, `list(`, `object({`, `any`, `object({})`, `list(object({}))`,
+		// blanks and line breaks between a parenthesis and what it wraps
+		`(  decl.foo)`, `1 + ( decl.foo )`, "(\n  decl.foo\n)", `( "a" )`, `fn( decl.foo )`,
 	}
 	if tier == "thorough" {
 		base = append(base,
 			`"é"`, `"é"`, `"👍🏽"`, `{ "é" = "x" }`, `[ "ü", decl.foo ]`, `{ foo = "x", bar = `, `{ foo = "x"`, `{ fo`, `["a", `,
 			`fn(["a"], {foo = 1})`, `fn("a,b)", 1)`, "fn(\n  \"a\",\n  1\n)", `decl.foo[`, `decl.`, `decl.foo.`, `"${decl.`, `1 +`, `true ?`, `true ? 1 :`,
-			`[for`, `{for k, v in`, `<<EOT`, "<<-EOT\n  a\n  EOT", `set(string)`, `list(object({a=string}))`, `optional(string, "x")`,
+			`[for`, `{for k, v in`, `<<EOT`, "<<-EOT\n  a\n  EOT", `set(string)`, `list(object({a=string}))`, `object({ a = object({}) })`, `tuple([object({})])`, `optional(string, "x")`,
 			`{ foo = "x", foo = "y" }`, `{ null = 1 }`, `{ 42 = 1 }`, `{ true = 1 }`, `{ decl.foo = 1 }`, `[null]`, `[true, "a"]`, `["a", true]`,
 			`fn2(1).x`, `fn("a")[0]`, `{ foo = fn("a") }`, `[fn("a")]`, `{ foo = decl.foo }`, `[{ foo = "x" }]`, `{ k = ["a"] }`,
 		)
